@@ -357,20 +357,22 @@ def remote_fault_case(kind, op, fault, count, size_i, skip):
     if fault == '401':
         if kind == 's3':
             return True, 'n/a'
-    elif fault == 'drop' and (op not in ('download', 'download_stream') or size == 0):
+    elif fault == 'drop' and (op not in ('download', 'download_stream') or size <= 16):      # the fake drops after one 16-byte piece
         return True, 'n/a'
     status = {'503': 503, '500': 500, '429': 429}.get(fault, 503)
     fkind = {'connect': 'connect', 'drop': 'drop'}.get(fault, 'status')
+    plan = fakes.FaultPlan()
     if fault != '401':
-        svc.plan = fakes.FaultPlan(kind=fkind, status=status, match=is_op_request, skip=skip, count=count,
-                                   headers={'retry-after': '0'} if fault == '429' else {}, drop_after=1)
+        plan = fakes.FaultPlan(kind=fkind, status=status, match=is_op_request, skip=skip, count=count,
+                               headers={'retry-after': '0'} if fault == '429' else {}, drop_after=1)
     raw = CountingStream(data)
     sink = io.BytesIO()
     result = {}
 
     async def go():
         if kind == 'b2':
-            await be.exists('warm-up')           # authorise first, then arm the expiry
+            await be.exists('warm-up')           # authorise and find the bucket first, then arm the faults
+        svc.plan = plan
         if fault == '401':
             svc.expire_next = count
         if op == 'upload':
@@ -399,7 +401,7 @@ def remote_fault_case(kind, op, fault, count, size_i, skip):
     except Exception as e:
         raised = e
     nreq = len(svc.requests) - n0
-    used = svc.plan.hits if fault != '401' else count - svc.expire_next
+    used = plan.hits if fault != '401' else count - svc.expire_next
     if isinstance(raised, RecursionError):
         return False, f'{kind} {op}: {fault} x{count}: unbounded re-authentication recursion after {nreq} requests'
     INF = 10 ** 9
